@@ -1,4 +1,5 @@
 """C09 -- eager and lazy component computation agree; pickling is lossless."""
+from .c08 import replay_behaviours
 from .common import run_model, run_progs
 
 FINISH = dict(rule="R1 MC_Ports/MC_Split (the lazily derived authority accessors of Level I satisfy the Level A split); R3 random "
@@ -12,3 +13,4 @@ def run(out, sc, tier, seed):
     n = 6000 if tier == "quick" else 150000
     run_progs(out, sc, "C09", {"gen": "progs", "n": n, "seed": seed, "surrogate_p": 0.02, "extras": ["twin"],
                                "encoded_p": 0.3}, "progs", shard_size=600)
+    replay_behaviours(out, sc, tier, seed, "C09")
